@@ -32,7 +32,7 @@ EVIDENCE = VERIF / "evidence"
 REPLAYS = VERIF / "replays"
 CORPUS = VERIF / "corpus"
 KNOWN = VERIF / "known_findings.json"
-OBLIGATIONS = LEAN / "obligations.json"
+OBLIGATIONS = LEAN / "obligations"      # one <ID>.json per property
 
 ALLOWED_AXIOMS = {"propext", "Classical.choice", "Quot.sound"}
 FORBIDDEN = re.compile(
@@ -183,8 +183,10 @@ def forbidden_tokens() -> list[str]:
 
 
 def obligations_for(pid: str) -> dict:
-    obl = json.loads(OBLIGATIONS.read_text())
-    return obl.get(pid, {"module": None, "theorems": [], "examples": 0, "partial": []})
+    f = OBLIGATIONS / f"{pid}.json"
+    if not f.exists():
+        return {"module": None, "theorems": [], "examples": 0, "partial": []}
+    return json.loads(f.read_text())
 
 
 def audit_axioms(pid: str) -> dict:
